@@ -26,11 +26,18 @@ type WorldSpec struct {
 	// HugeKeys > 0: one additional ascending key list of that many 8-byte keys
 	// (beyond the sizes at which an implementation might switch strategy, e.g.
 	// split the work over GOMAXPROCS workers); only the sigbits functions run on it.
-	HugeKeys int          `json:"huge_keys,omitempty"`
-	Bitmaps  []BitmapSpec `json:"bitmaps"`
-	Keys     []KeySpec    `json:"keys"`
-	Masks    []int32      `json:"masks"` // bmtree level masks (bitmapSize), height <= 9
-	Joins    []JoinSpec   `json:"joins"`
+	HugeKeys int `json:"huge_keys,omitempty"`
+	// HugeMasks: the level masks are replaced by three trees of height 20 (about
+	// half a million stored nodes each): sizes at which Decode might keep what it
+	// worked out for the next call. Only Decode runs on them.
+	HugeMasks bool `json:"huge_masks,omitempty"`
+	// HugeWords > 0: one additional sparse bitmap of that many words (2^16 and
+	// more); only the whole-bitmap functions run on it.
+	HugeWords int          `json:"huge_words,omitempty"`
+	Bitmaps   []BitmapSpec `json:"bitmaps"`
+	Keys      []KeySpec    `json:"keys"`
+	Masks     []int32      `json:"masks"` // bmtree level masks (bitmapSize), height <= 9
+	Joins     []JoinSpec   `json:"joins"`
 }
 
 type BitmapSpec struct {
@@ -96,12 +103,15 @@ type wJoin struct {
 }
 
 type world struct {
-	huge    []string // the huge key list (nil if none); on the Go heap in both flavours
-	bitmaps []*wBitmap
-	keys    []*wKeys
-	masks   []*wMask
-	joins   []*wJoin
-	arena   *arena
+	huge []string // the huge key list (nil if none); on the Go heap in both flavours
+	// the huge bitmap (nil if none), on the Go heap in both flavours
+	hugeWords []uint64
+	bitmaps   []*wBitmap
+	keys      []*wKeys
+	masks     []*wMask
+	joins     []*wJoin
+	arena     *arena
+	twin      bool // see arena_common.go
 }
 
 func genWorldSpec(r *engine.PRNG) WorldSpec {
@@ -116,8 +126,12 @@ func genWorldSpec(r *engine.PRNG) WorldSpec {
 		}
 		w.Bitmaps = append(w.Bitmaps, b)
 	}
-	if r.Chance(1, 400) {
+	// the huge-input classes (HugeKeys, HugeWords, HugeMasks) are placed at fixed
+	// run indices of every batch, see genReaders; here only rarely by chance
+	if r.Chance(1, 2000) {
 		w.HugeKeys = r.PickInt(1<<18, 1<<18+1, 300000)
+	} else if r.Chance(1, 2000) {
+		w.HugeWords = r.PickInt(1<<16, 1<<16+1, 1<<17, 100000)
 	}
 	nk := 2 + r.Intn(3)
 	for i := 0; i < nk; i++ {
@@ -337,10 +351,12 @@ func ownBitWords(s string, width int) []byte {
 	return out
 }
 
-// buildWorld constructs the shared world in the arena and seals it.
-func buildWorld(spec WorldSpec) *world {
-	a := newArena()
-	w := &world{arena: a}
+// buildWorld constructs the shared world in the arena and seals it. The twin
+// (arena_common.go) holds the same values in different surroundings; it shares
+// the huge key list, which lives on the Go heap and has no surroundings to vary.
+func buildWorld(spec WorldSpec, twinOf *world) *world {
+	a := newArena(twinOf != nil)
+	w := &world{arena: a, twin: twinOf != nil}
 	for _, bs := range spec.Bitmaps {
 		words := a.u64s(buildBitmapWords(bs))
 		b := &wBitmap{words: words}
@@ -403,9 +419,15 @@ func buildWorld(spec WorldSpec) *world {
 		k.sb = sigbits.New(k.keys)
 		w.keys = append(w.keys, k)
 	}
-	for _, m := range spec.Masks {
+	masks := spec.Masks
+	if spec.HugeMasks {
+		masks = []int32{1<<20 | 1<<1, 1<<20 | 1<<2 | 1, 1<<20 | 1<<3}
+	}
+	for _, m := range masks {
 		wm := &wMask{mask: m}
-		wm.paths = a.u64s(ownAllPaths(m))
+		if !spec.HugeMasks {
+			wm.paths = a.u64s(ownAllPaths(m))
+		}
 		nb := make([]uint64, (int(m)+63)/64+1)
 		for i := range nb {
 			nb[i] = engine.H(uint64(m), uint64(i))
@@ -425,7 +447,27 @@ func buildWorld(spec WorldSpec) *world {
 		j.words = a.u64s(ownJoin(j.subs, js.Width))
 		w.joins = append(w.joins, j)
 	}
-	if spec.HugeKeys > 0 {
+	if spec.HugeWords > 0 && twinOf != nil {
+		w.hugeWords = twinOf.hugeWords
+	} else if spec.HugeWords > 0 {
+		// sparse, with a few dense and all-ones words, and nothing at all in the
+		// last quarter (so that parts of very different cost exist)
+		w.hugeWords = make([]uint64, spec.HugeWords)
+		for i := 0; i < 3*spec.HugeWords/4; i++ {
+			h := engine.H(uint64(spec.HugeWords), 77, uint64(i))
+			switch {
+			case h%5 == 0:
+				w.hugeWords[i] = 1 << ((h >> 8) % 64)
+			case h%997 == 0:
+				w.hugeWords[i] = h
+			case h%4999 == 0:
+				w.hugeWords[i] = ^uint64(0)
+			}
+		}
+	}
+	if spec.HugeKeys > 0 && twinOf != nil {
+		w.huge = twinOf.huge
+	} else if spec.HugeKeys > 0 {
 		w.huge = make([]string, spec.HugeKeys)
 		buf := make([]byte, 8*spec.HugeKeys)
 		v := uint64(0x0101010101010101)
@@ -498,6 +540,9 @@ func (w *world) snapshot() uint64 {
 	for _, j := range w.joins {
 		hw(j.words)
 		hw(j.subs)
+	}
+	if w.hugeWords != nil {
+		hw(w.hugeWords)
 	}
 	return h
 }
